@@ -214,7 +214,7 @@ def check_case(ctx, fails, case, tr, small_exprs, small_refs):
                           'minimum %r and maximum %r' % (omin, omax, float(tm._continuous_min), float(tm._continuous_max)), payload))
     # (5b) the translated unit-interval map reproduces the outcome column the estimator works on
     if tr and not binary and 'tmle_unit_bounds' in tr:
-        raw = np.asarray(df['Y'], dtype=float)[np.asarray(tm.df['index'])] if 'index' in tm.df.columns else None
+        raw = np.asarray(df['Y'], dtype=float) if len(tm.df) == len(df) else None      # no row is dropped on entry in these frames
         if raw is not None:
             lo, hi, cbv = float(tm._continuous_min), float(tm._continuous_max), float(tm._cb)
             bad = 0
